@@ -21,7 +21,7 @@ META = {
   "512..4096-bit keys for the arithmetic (modpow, CRT at production sizes); agreement with OpenSSL/an independent implementation",
   "OAEP/PSS with the real hash functions and moduli longer than 40 bytes",
   "br_rsa_i62_private beyond the over-long-factor gate (uint64/uint32 type-punned work area: no query finished)",
-  "br_rsa_i15_private CRT recombination (alignment test on the work area makes all indices symbolic); CRT recombination is checked for i31/i32 only",
+  "br_rsa_i15_private CRT recombination (alignment test on the work area makes all indices symbolic); CRT recombination is checked for i31/i32 only, moduli up to 16 bits (24-bit moduli: no verdict in 900 s)",
   "public o private == identity with real arithmetic beyond the 7-bit toy modulus 13*5 (16-bit modulus: no verdict in 10 min), and for i15/i62 at any size (i15 at n=65: no verdict in 900 s)",
   "key generation, br_rsa_*_compute_modulus/pubexp/privexp, the pkcs1_sign/vrfy, pss_sign/vrfy, oaep_encrypt/decrypt wrappers as compositions, 'default' implementation selection",
   "constant-time behaviour (C08)",
@@ -144,6 +144,11 @@ def queries():
                         defs=["-DC10_IMPL=%d" % impl, "-DC10_NL=%d" % nl, "-DC10_XL=%d" % xl, "-DC10_EL=%d" % el],
                         unwind=10, tier=tier, timeout=240,
                         desc="br_rsa_i%d_public: returns 0 and leaves x unmodified when modulus length (after leading zeros) is 0 or != xlen; else 1 <=> n odd and x < n; n (%d bytes stored, leading zeros symbolic), x (%d bytes), e (%d bytes) symbolic; real decode/decode_mod/ninv/encode, modpow stubbed at the link seam" % (impl, nl, xl, el)))
+        if True:
+            qs.append(Q("pubgate-i%d-NL5-XL4-EL3" % impl, "C10_pubgate.c", units=IMPL_UNITS[impl],
+                        defs=["-DC10_IMPL=%d" % impl, "-DC10_NL=5", "-DC10_XL=4", "-DC10_EL=3"],
+                        unwind=14, tier="quick", timeout=240,
+                        desc="br_rsa_i%d_public gates as above with n 5 bytes stored (leading zeros symbolic), x 4 bytes, e 3 bytes" % impl))
         qs.append(Q("pubgate-i%d-toolong" % impl, "C10_pubgate.c", units=IMPL_UNITS[impl],
                     defs=["-DC10_IMPL=%d" % impl, "-DC10_NL=513", "-DC10_XL=513", "-DC10_EL=1", "-DC10_BIGN=1"],
                     unwind=516, fsarray=520, tier="quick", timeout=240,
@@ -161,8 +166,8 @@ def queries():
     # (p, q, stored bytes of p, of q, tier)
     PRIVCASES = [(251, 241, 1, 1, "quick"), (241, 251, 1, 1, "quick"), (250, 241, 1, 1, "quick"), (251, 240, 1, 1, "quick"),
                  (251, 241, 3, 2, "quick"), (65521, 251, 2, 1, "quick"), (65521, 65519, 2, 2, "quick"), (65519, 65521, 3, 2, "quick")]
-    CRTCASES = [(13, 5, 1, 1, "quick"), (5, 13, 1, 1, "quick"), (251, 241, 1, 1, "quick"), (241, 251, 2, 1, "thorough"),
-                (65521, 251, 2, 1, "thorough"), (251, 65521, 1, 2, "thorough")]
+    # 24-bit moduli (65521*251): no verdict in 900 s on any back end tried -> dropped
+    CRTCASES = [(13, 5, 1, 1, "quick"), (5, 13, 1, 1, "quick"), (251, 241, 1, 1, "thorough"), (241, 251, 2, 1, "thorough")]
     I15_CRT_SEAM = ("decred", "reduce", "tmont", "montmul")
     for impl in (15, 31, 32, 62):
         units = PRIV_UNITS[impl]
@@ -182,7 +187,7 @@ def queries():
                 tier = "thorough"
             qs.append(Q("privgate-i%d-p%d-q%d-PL%d-QL%d" % (impl, P, Qv, pl, ql), "C10_privgate.c", units=units,
                         defs=["-DC10_IMPL=%d" % impl, "-DBR_MAX_RSA_SIZE=64"] + extra + keydefs(P, Qv, pl, ql),
-                        unwind=(8 if impl == 15 else 34), tier=tier, timeout=900 if tier == "thorough" else 240,
+                        unwind=((8 if P < 256 and Qv < 256 else 12) if impl == 15 else 34), tier=tier, timeout=900 if tier == "thorough" else 240,
                         desc="br_rsa_i%d_private, p=%d (%d bytes stored), q=%d (%d bytes stored): returns 1 <=> x < p*q and p, q odd, for every x; modpow%s stubbed at the link seam; BR_MAX_RSA_SIZE=64" % (impl, P, pl, Qv, ql, " and the CRT callees" if impl == 15 else "")))
         if impl == 15:
             continue
